@@ -210,6 +210,10 @@ Definition recv_close (s : state) : state * res :=
 Definition recv_reset (sid reason : N) (queued : bool) (s : state) : state * res :=
   let recv_end_stream := is_recv_end_stream s in
   match s, queued with
+  | Closed (ScheduledLibraryReset _), false =>
+    (* a reset that is only scheduled has not been sent: the peer's reset takes its place (fix 036e89b of /repo) *)
+    let error := remote_reset sid reason in
+    (Closed (if recv_end_stream then ErrorAfterEndStream error else CError error), RUnit)
   | Closed _, false => (s, RUnit)
   | _, _ =>
     let error := remote_reset sid reason in
@@ -218,6 +222,7 @@ Definition recv_reset (sid reason : N) (queued : bool) (s : state) : state * res
 
 Definition handle_error (e : perror) (s : state) : state * res :=
   match s with
+  | Closed (ScheduledLibraryReset _) => (Closed (CError e), RUnit)  (* the unsent reset gives way to the connection error *)
   | Closed _ => (s, RUnit)
   | HalfClosedRemote _ => (Closed (ErrorAfterEndStream e), RUnit)   (* the peer's message was complete *)
   | _ => (Closed (CError e), RUnit)
